@@ -103,17 +103,17 @@ def _run_group_in(name, outdir, rlimit=None, canary_calls=None, timeout=600):
     """One or more attempts: a fn unit that cannot be extracted, or whose spliced text the verifier refuses to type-check, is
     replaced by its contract (stubbed) and the rest of the group is verified again. Nothing is stubbed on the unchanged tree."""
     stub = []
-    last = None
+    reasons = []
     for attempt in range(6):
         res = _run_group_once(name, outdir, rlimit, canary_calls, timeout, tuple(stub))
         res['stubbed'] = list(stub)
         culprits = [u for u in res.pop('culprits', []) if u not in stub]
         if res['status'] == 'undecided' and res.get('soft') and culprits:
             stub.extend(culprits)
-            last = res
+            reasons.append('%s: %s' % (', '.join(culprits), res.get('reason', '')[:240]))
             continue
         if stub and res['status'] in ('proved', 'failed'):
-            res['partial'] = 'units not verified on this tree (code shape changed): %s -- first reason: %s' % (', '.join(stub), (last or {}).get('reason', '')[:200])
+            res['partial'] = 'units not verified on this tree (code shape changed): ' + ' || '.join(reasons)
         return res
     return res
 
